@@ -26,11 +26,16 @@ package quotaresource
 //@   invariant[memo] q.allowedByReqID != nil
 //@   invariant[counted] forall(r, string, in(r, q.allowedByReqID) && q.allowedByReqID[r] ==> q.gCounted[r])
 
+// what the latest Inc of a quota object answered (ghost; lets a caller's contract speak of the answer without naming the
+// caller's temporaries)
+//@ ghost var gLastQuotaInc incResult
 //@ func (*quota).Inc
 //@   prop C01
 //@   requires quotaOK(q)
 //@   allocates map
-//@   modifies q.allowedByReqID, q.gCounted, mapof(q.allowedByReqID), smapof(cmOf(msOf(q)).ctx), msOf(q).gAdm, msOf(q).gEnd, msOf(q).gLast, msOf(q).gRestarted, now
+//@   on return do gLastQuotaInc = result
+//@   ensures[answer-recorded] gLastQuotaInc == result
+//@   modifies gLastQuotaInc, q.allowedByReqID, q.gCounted, mapof(q.allowedByReqID), smapof(cmOf(msOf(q)).ctx), msOf(q).gAdm, msOf(q).gEnd, msOf(q).gLast, msOf(q).gRestarted, now
 //@   on return when result == increased do q.gCounted[APIStream.GetID()] = true
 //@   ensures[already]  seq: old(in(APIStream.GetID(), q.allowedByReqID)) ==> result == alreadyIncreased
 //@   ensures[verdict]  seq: !old(in(APIStream.GetID(), q.allowedByReqID)) ==> (result == increased || result == blocked)
@@ -103,12 +108,14 @@ package quotaresource
 //@   requires[self] allocated(fw) && fw != nil
 //@   decreases fw.gDepth
 //@   allocates quota, map
-//@   modifies heap, gPendingInc, now
+//@   ghostlocal own incResult
+//@   modifies heap, gPendingInc, gLastQuotaInc, now
 //@   on entry do gPendingInc[APIStream.GetID()] = true
+//@   on call Inc 1 after do own = gLastQuotaInc
 //@   on return do fw.gIncs = old(fw.gIncs) + 1
 //@   ensures[ok]      result == nil
 //@   ensures[incs]    fw.gIncs == old(fw.gIncs) + 1
-//@   ensures[parent-iff-increased] seq: fw.parent != nil ==> old(parentFW(fw)).gIncs == old(parentFW(fw).gIncs) + ite(isIncreased == increased, 1, 0)
+//@   ensures[parent-iff-increased] seq: fw.parent != nil ==> old(parentFW(fw)).gIncs == old(parentFW(fw).gIncs) + ite(own == increased, 1, 0)
 //@   ensures[pending] gPendingInc[APIStream.GetID()]
 //@   ensures[world]   worldOK()
 
